@@ -176,6 +176,12 @@ func (t *gotr) expr(e ast.Expr) (string, string) {
 		if ty == "Op" && (v.Sel.Name == "I" || v.Sel.Name == "J") {
 			return s + "." + v.Sel.Name, "int"
 		}
+		if ty == "Term" && v.Sel.Name == "D" {
+			return s + ".D", "*big.Int"
+		}
+		if ty == "Term" && v.Sel.Name == "E" {
+			return s + ".E", "uint"
+		}
 		if ty == "FixedWindow" && v.Sel.Name == "K" {
 			return s, "uint" // the struct has the single field K: it is passed as that field
 		}
@@ -549,6 +555,11 @@ func (t *gotr) call(v *ast.CallExpr) (string, string) {
 			a := t.args(v, g.params)
 			return "(← " + g.lean + " " + strings.Join(append([]string{recv}, a...), " ") + ")", resultType(g)
 		}
+		// value method of a type of the current (non-root) package: dict.Term.Int, dict.Sum.Int
+		if g, ok := t.funcs[t.cur.pkg+"."+rty+"."+f.Sel.Name]; ok && t.cur.pkg != "" && !g.ptr {
+			a := t.args(v, g.params)
+			return "(← " + g.lean + " " + strings.Join(append([]string{recv}, a...), " ") + ")", resultType(g)
+		}
 	}
 	t.fail(v, "unsupported call")
 	return "sorryUnsupported", "?"
@@ -627,6 +638,9 @@ func (t *gotr) assigned(list []ast.Stmt) []string {
 					if id, ok := sel.X.(*ast.Ident); ok {
 						if ty, ok := t.lookup(id.Name); ok && (ty == "*big.Int" || strings.HasPrefix(ty, "*")) {
 							set[id.Name] = true
+						}
+						if ty, ok := t.lookup(id.Name); ok && (sel.Sel.Name == "AppendClone" && ty == "Chain" || sel.Sel.Name == "SortByExponent" && ty == "Sum") {
+							set[id.Name] = true // pointer-receiver / in-place methods on a local slice
 						}
 					}
 				}
@@ -888,6 +902,29 @@ func (t *gotr) stmt(s ast.Stmt, ind string) string {
 				}
 			}
 		}
+		if c, ok := v.X.(*ast.CallExpr); ok && len(c.Args) == 1 {
+			if sel, ok := c.Fun.(*ast.SelectorExpr); ok && sel.Sel.Name == "AppendClone" {
+				if id, ok := sel.X.(*ast.Ident); ok {
+					if ty, ok := t.lookup(id.Name); ok && ty == "Chain" {
+						// (*Chain).AppendClone on a local chain: `*c = append(*c, bigint.Clone(x))`; values
+						// are immutable here, so the clone is the value
+						a, aty := t.expr(c.Args[0])
+						if aty == "*big.Int" {
+							return ind + id.Name + " := " + id.Name + " ++ [" + a + "]\n"
+						}
+					}
+				}
+			}
+		}
+		if c, ok := v.X.(*ast.CallExpr); ok && Src(t.fset, c.Fun) == "bigints.Sort" && len(c.Args) == 1 {
+			if id, ok := c.Args[0].(*ast.Ident); ok {
+				if ty, ok := t.lookup(id.Name); ok && ty == "[]*big.Int" {
+					// sort.Slice by value, in place: a primitive (merge sort; any correct sort of integers
+					// returns the same list)
+					return ind + id.Name + " := (bigintsSort " + id.Name + ")\n"
+				}
+			}
+		}
 		if c, ok := v.X.(*ast.CallExpr); ok {
 			if id, ok := c.Fun.(*ast.Ident); ok && id.Name == "panic" {
 				return ind + "goPanic\n"
@@ -1033,8 +1070,8 @@ func (t *gotr) loop(s ast.Stmt, rest []ast.Stmt, ind string, tail string) string
 	var body []ast.Stmt
 	var domType, nilPat, consPat, recArg, callArg string
 	var extra []string // loop-bound variables defined for the body
-	idxName, idxStart := "", "0"
-	counter := ""
+	idxName, idxStart, idxStep := "", "0", " + 1"
+	counter, downIdx := "", ""
 	converge := false
 	condS := ""
 	pre := ""
@@ -1072,6 +1109,38 @@ func (t *gotr) loop(s ast.Stmt, rest []ast.Stmt, ind string, tail string) string
 		cond, _ := v.Cond.(*ast.BinaryExpr)
 		post, _ := v.Post.(*ast.IncDecStmt)
 		switch {
+		case v.Init == nil && cond != nil && cond.Op == token.GTR && Src(t.fset, cond.Y) == "0" && post != nil && post.Tok == token.DEC && Src(t.fset, post.X) == Src(t.fset, cond.X) && t.isIntLocal(cond.X):
+			// for ; k > 0; k-- { .. } with k a signed local that the body reads but does not assign and that
+			// is not mentioned afterwards: max(k, 0) passes, the index handed down decreasing
+			downIdx = Src(t.fset, cond.X)
+			idxName, idxStart, idxStep = downIdx, downIdx, " - 1"
+			for _, as := range t.assigned(body) {
+				if as == downIdx {
+					t.fail(s, "countdown index assigned in the loop body")
+				}
+			}
+			if mentions(&ast.BlockStmt{List: rest}, downIdx) {
+				t.fail(s, "countdown index used after the loop")
+			}
+			callArg = "(Int.toNat " + downIdx + ")"
+		case init != nil && init.Tok == token.DEFINE && len(init.Lhs) == 1 && len(init.Rhs) == 1 && cond != nil && cond.Op == token.GTR && Src(t.fset, cond.X) == Src(t.fset, init.Lhs[0]) && post != nil && post.Tok == token.DEC && Src(t.fset, post.X) == Src(t.fset, init.Lhs[0]):
+			// for i := A; i > B; i-- { .. } with i unsigned and not mentioned in the body, B not assigned
+			// in the body: A - B passes (none when A <= B)
+			counter = Src(t.fset, init.Lhs[0])
+			a, aty := t.expr(init.Rhs[0])
+			b, bty := t.expr(cond.Y)
+			if aty != "uint" || (bty != "uint" && b != "0") {
+				t.fail(s, "bounds of an unsigned countdown")
+			}
+			if mentions(v.Body, counter) {
+				t.fail(s, "unsigned countdown variable used in the loop body")
+			}
+			for _, as := range t.assigned(body) {
+				if mentions(cond.Y, as) {
+					t.fail(s, "bound of a countdown is assigned in its body")
+				}
+			}
+			callArg = "(" + a + " - " + b + ")"
 		case v.Init == nil && cond != nil && cond.Op == token.GTR && Src(t.fset, cond.Y) == "0" && post != nil && post.Tok == token.DEC && Src(t.fset, post.X) == Src(t.fset, cond.X):
 			// for ; s > 0; s-- { .. } with s an unsigned local not mentioned in the body or afterwards
 			counter = Src(t.fset, cond.X)
@@ -1222,7 +1291,7 @@ func (t *gotr) loop(s ast.Stmt, rest []ast.Stmt, ind string, tail string) string
 	// variables in scope: all become parameters
 	vars := []string{}
 	for _, o := range t.order {
-		if o != counter {
+		if o != counter && o != downIdx {
 			vars = append(vars, o)
 		}
 	}
@@ -1240,7 +1309,9 @@ func (t *gotr) loop(s ast.Stmt, rest []ast.Stmt, ind string, tail string) string
 		loopVars = append(loopVars, p[0])
 	}
 	if idxName != "" {
-		t.define(s, idxName, "int")
+		if downIdx == "" {
+			t.define(s, idxName, "int")
+		}
 		loopVars = append(loopVars, idxName)
 	}
 	assigned := []string{}
@@ -1346,7 +1417,7 @@ func (t *gotr) loop(s ast.Stmt, rest []ast.Stmt, ind string, tail string) string
 	t.innerRet = hasRet
 	recCall := name + " " + recArg
 	if idxName != "" {
-		recCall += " (" + idxName + " + 1)"
+		recCall += " (" + idxName + idxStep + ")"
 	}
 	recCall += " " + strings.Join(vars, " ")
 	t.recCalls = append(t.recCalls, recCall)
@@ -1374,7 +1445,7 @@ func (t *gotr) loop(s ast.Stmt, rest []ast.Stmt, ind string, tail string) string
 		}
 	}
 	idxPat := "_"
-	if converge || idxName != "" && (mentions(&ast.BlockStmt{List: rest}, idxName)) {
+	if converge || downIdx != "" || idxName != "" && (mentions(&ast.BlockStmt{List: rest}, idxName)) {
 		idxPat = idxName
 	}
 	fmt.Fprintf(&d, "  | %s => do\n", pats(nilPat, idxPat))
@@ -1437,6 +1508,15 @@ func (t *gotr) loop(s ast.Stmt, rest []ast.Stmt, ind string, tail string) string
 }
 
 func mentionsCallWithPtr(e ast.Expr) bool { return false }
+
+func (t *gotr) isIntLocal(e ast.Expr) bool {
+	id, ok := e.(*ast.Ident)
+	if !ok {
+		return false
+	}
+	ty, ok := t.lookup(id.Name)
+	return ok && ty == "int"
+}
 
 func isMapIndex(e ast.Expr) bool {
 	ix, ok := e.(*ast.IndexExpr)
